@@ -187,7 +187,7 @@ pub fn run(ctx: &Ctx) -> Report {
         let mut st = Stats::new();
         let leaf = prop_oneof![6 => gen::supported_leaf(), 1 => gen::text_leaf(), 3 => option().prop_map(E::G)];
         let strat = (
-            proptest::collection::vec(option(), 0..4),
+            prop_oneof![4 => proptest::collection::vec(option(), 0..4), 1 => proptest::collection::vec(option(), 4..10)],
             prop_oneof![1 => Just(None), 9 => gen::expr_over(leaf.boxed(), 5, 16, true).prop_map(|t| {
                 // an option as first word would belong to the leading run: put a test in front
                 if matches!(t.leaves().first(), Some(E::G(_))) { Some(E::and(E::T(Tst::Name("first".into())), t)) } else { Some(t) }
@@ -199,7 +199,7 @@ pub fn run(ctx: &Ctx) -> Report {
     });
     Report {
         stats: total,
-        rule: "random expressions over the keyword vocabulary in which -depth, -threads N, -maxdepth N, -mindepth N also occur as leaves (middle, inside parentheses, after '!', last), preceded by a leading run of 0..3 options, rendered canonically or through the layout variant grammar. Model: depth = any -depth; threads = value of the last -threads in textual order; expected tree = expression with every option leaf replaced by -true (a leading run leaves it untouched; only options -> -true); no option node in the returned tree; fifth argument of the emitted lipe-scan = N or (lipe-getopt-thread-count). Any -maxdepth/-mindepth: the input must be rejected with an error or the limit must show in the returned options; never a panic, never silently ignored. Non-trivial: an option outside the leading run, or a repeated option. Distinct: by (leading run, tree, layout choices).".into(),
+        rule: "random expressions over the keyword vocabulary in which -depth, -threads N, -maxdepth N, -mindepth N also occur as leaves (middle, inside parentheses, after '!', last), preceded by a leading run of 0..9 options, rendered canonically or through the layout variant grammar. Model: depth = any -depth; threads = value of the last -threads in textual order; expected tree = expression with every option leaf replaced by -true (a leading run leaves it untouched; only options -> -true); no option node in the returned tree; fifth argument of the emitted lipe-scan = N or (lipe-getopt-thread-count). Any -maxdepth/-mindepth: the input must be rejected with an error or the limit must show in the returned options; never a panic, never silently ignored. Non-trivial: an option outside the leading run, or a repeated option. Distinct: by (leading run, tree, layout choices).".into(),
         assumptions: vec!["an expression whose first word is an option is not generated separately: that word belongs to the leading run by definition".into()],
         exhaustive: false,
     }
